@@ -394,6 +394,17 @@ def proxyLoop (ops : Ops) (reqHeader : Header) : Nat → Header → List Fwd
   | fails + 1, cur =>
     fwdOf (attemptHeader ops reqHeader cur) :: proxyLoop ops reqHeader fails (attemptHeader ops reqHeader cur)
 
+/-! ### templates' `httpInclude` (templates/tplcontext.go `funcHTTPInclude`): the virtual sub-request -/
+
+/-- `virtReq.RemoteAddr = "127.0.0.1:10000"` -/
+def virtualRemote : Bytes := [49, 50, 55, 46, 48, 46, 48, 46, 49, 58, 49, 48, 48, 48, 48]
+
+/-- the virtual request goes through `server.ServeHTTP` → `PrepareRequest` like any other: it has the
+    dummy remote address and `virtReq.Header = c.Req.Header.Clone()`, a CLONE of the outer request's header
+    (plus Accept-Encoding and the recursion counter, which no modelled function reads) -/
+def serveInclude (N : Net Addr Prefix) (cfg : Cfg Prefix) (c : Conn) (wire : List (Bytes × Bytes)) : Out :=
+  serve N cfg { c with remoteAddr := virtualRemote } wire
+
 /-! ### the FastCGI transport (reverseproxy/fastcgi/fastcgi.go `buildEnv`, what php_fastcgi configures):
 what the application is told about the client -/
 
